@@ -17,10 +17,10 @@ ASSUMPTIONS = [
     "case variants are exercised through the stream entry points (HashStreamFile, get_hash_stream, fobj_md5, file_md5)",
 ]
 MONITORS = "digest / passthrough bytes / byte count compared with hashlib on every evaluation"
-REQUIRED_COUNTERS = ["long_first_line_texts", "hash_file_over_index_filesystem", "dos2unix_case_variant_checks", "midway_digest_peeks", "streams_with_transient_read_failures", "transient_read_failures_retried", "interleaved_stream_pairs", "short_read_streams", "stream_checks", "fobj_md5_checks", "hash_file_checks", "dos2unix_variant_checks", "memfs_checks"]
+REQUIRED_COUNTERS = ["control_heavy_ascii_contents", "long_first_line_texts", "hash_file_over_index_filesystem", "dos2unix_case_variant_checks", "midway_digest_peeks", "streams_with_transient_read_failures", "transient_read_failures_retried", "interleaved_stream_pairs", "short_read_streams", "stream_checks", "fobj_md5_checks", "hash_file_checks", "dos2unix_variant_checks", "memfs_checks"]
 
-PLAIN = ["md5", "sha1", "sha256", "sha512", "blake3", "sha224", "sha384"]
-VARIANTS = ["MD5", "Md5", "SHA256", "Sha256", "BLAKE3", "Blake3", "SHA1", "sHa512"]
+PLAIN = ["md5", "sha1", "sha256", "sha512", "blake3", "sha224", "sha384", "md5-sha1", "sha3_256", "blake2b", "sha512_256"]
+VARIANTS = ["MD5", "Md5", "SHA256", "Sha256", "BLAKE3", "Blake3", "SHA1", "sHa512", "MD5-SHA1"]
 
 
 def _read_sizes(rng, n):
@@ -151,7 +151,13 @@ def run_shard(ctx):
     for case, rng in ctx.cases(n_cases):
         def one(case=case, rng=rng):
             data = gen.content(rng, big=0.05 if ctx.tier == "quick" else 0.08)
-            if rng.random() < 0.08:
+            if rng.random() < 0.06:
+                # 7-bit, NUL-free content full of control characters (binary by the 30 % rule) with CRLF pairs in it
+                ctl = bytes([1, 2, 3, 4, 5, 6, 7, 11, 14, 15, 16, 27, 28, 31, 127])
+                data = bytes(rng.choice(ctl) if rng.random() < rng.choice([0.35, 0.5, 0.9]) else rng.choice(b"abcdefgh ") for _ in range(rng.choice([40, 300, 600, 5000])))
+                data = data[: len(data) // 2] + b"\r\n" + data[len(data) // 2:] + b"\r\n"
+                res.count("control_heavy_ascii_contents")
+            elif rng.random() < 0.08:
                 # text whose first line ending lies around / beyond the 512-byte sniffing window
                 data = b"L" * rng.choice([505, 509, 510, 511, 512, 513, 519, 700]) + b"\r\n" + b"second line\r\nthird\r\n" * rng.randrange(1, 5)
                 res.count("long_first_line_texts")
